@@ -188,14 +188,19 @@ int flush_pubsub_msgs(void *data, const char *key, void *value) {
         }
     }
 
+    bool poisoned = false;
     while (mod->pubsub_fd[0] != -1 &&
         read(mod->pubsub_fd[0], &mm, sizeof(ps_priv_t *)) == sizeof(ps_priv_t *)) {
         /*
          * Actually tell msg ONLY if we are not stopping the module,
          * ie: we are stopping looping on the context.
          * Else, just free msg.
+         * A poison pill stops the module: nothing sent after it gets delivered.
          */
-        if (!stopping_mod && m_mod_is(mod, M_MOD_RUNNING)) {
+        if (!stopping_mod && !poisoned && mm->msg.system && mm->msg.topic && !strcmp(mm->msg.topic, M_PS_MOD_POISONPILL)) {
+            poisoned = true;
+        }
+        if (!stopping_mod && !poisoned && m_mod_is(mod, M_MOD_RUNNING)) {
             M_DEBUG("Flushing enqueued pubsub message for module '%s'.\n", mod->name);
             evt_priv_t *msg = new_evt(mm->sub);
             if (msg && flushed) {
@@ -209,6 +214,10 @@ int flush_pubsub_msgs(void *data, const char *key, void *value) {
         m_mem_unref(mm);
     }
     call_pubsub_cb(mod, flushed);
+    if (poisoned && m_mod_is(mod, M_MOD_RUNNING)) {
+        M_INFO("PoisonPilling '%s'.\n", mod->name);
+        stop(mod, true);
+    }
     
     /* 
      * If we are stopping the ctx loop,
